@@ -155,7 +155,18 @@ pub fn c07(rng: &mut Rng, thorough: bool, idx: u64) -> Spec {
                     0 => {
                         // the server breaks while executing this statement
                         let t = p.tag();
-                        p.simple(format!("SELECT '{}', sim_rows(3), sim_close({}){}", t, rng.range(0, 60), if rng.chance(0.5) { ", sim_rst()" } else { "" }));
+                        if rng.chance(0.4) {
+                            // ... in the middle of a reply that PgCat relays in several pieces: after
+                            // the first piece(s) the server closes, or goes quiet for good
+                            let at = rng.range(8300, 30000);
+                            if rng.chance(0.5) {
+                                p.simple(format!("SELECT '{}', sim_rows(4), sim_pad(8000), sim_close({}){}", t, at, if rng.chance(0.5) { ", sim_rst()" } else { "" }));
+                            } else {
+                                p.simple(format!("SELECT '{}', sim_rows(4), sim_pad(8000), sim_stall({})", t, at));
+                            }
+                        } else {
+                            p.simple(format!("SELECT '{}', sim_rows(3), sim_close({}){}", t, rng.range(0, 60), if rng.chance(0.5) { ", sim_rst()" } else { "" }));
+                        }
                     }
                     1 => {
                         let t = p.tag();
